@@ -82,3 +82,9 @@ package reader
 //@   ensures [fired-at-most-once-and-only-after-every-shard-reported] barrierFired[deref(barrier)] == 0 || (barrierFired[deref(barrier)] == 1 && barrierSeen[deref(barrier)] >= deref(barrier).Dest)
 //@   loop 1 invariant current == barrierSeen[deref(barrier)] && 0 <= current && barrierFired[deref(barrier)] == 0 && deref(barrier).Dest == old(deref(barrier).Dest)
 //@   loop 1 decreases deref(barrier).Dest - current
+
+// ---- C02 / C19: virtual channel names ------------------------------------------------------------------
+//@ func IsVirtualChannel
+//@   props C02 C19
+//@   modifies nothing
+//@   panics never
